@@ -13,7 +13,15 @@ import (
 // simple commands whose replies depend only on the commands before them
 func c12SimpleCmd(r *Rng, uniq *int) []string {
 	keys := []string{"a", "b", "c"}
-	switch r.Intn(8) {
+	switch r.Intn(11) {
+	case 8:
+		// commands that fail (unknown command, wrong arity, wrong type): an error is a reply like any other and
+		// keeps its place in the pipeline
+		return Pick(r, [][]string{{"NOSUCHCOMMAND", "x"}, {"GET"}, {"SET", "a"}, {"HGET", "n"}, {"INCR", "a", "b"}})
+	case 9:
+		return []string{"LPUSH", Pick(r, keys), "x"} // WRONGTYPE when the key holds a string
+	case 10:
+		return []string{"HSET", Pick(r, keys), "f", "v"}
 	case 0:
 		return []string{"PING"}
 	case 1:
@@ -134,6 +142,36 @@ func runC12Stream(t *testing.T, p *Plan) *Outcome {
 		}
 		if pr := probe.DoSync("PING"); o.Sig == "" && (pr.Reply.Str != "PONG") {
 			fail("other-connection-affected/"+class, "probe PING got "+pr.String())
+		}
+		// the subscribe family answers once per channel named - also for a channel the connection already listens to
+		if o.Sig == "" {
+			sc := s.NewTCPClient(inst, "sub")
+			if p.K("proto") == 3 {
+				sc.DoSync("HELLO", "3")
+			}
+			verb := "SUBSCRIBE"
+			names := [][]string{{"x", "y"}, {"y", "z"}, {"z"}}
+			if p.K("conns")%2 == 0 {
+				verb, names = "PSUBSCRIBE", [][]string{{"p*", "p*"}, {"q?", "p*"}}
+			}
+			var wantNames []string
+			var out []byte
+			for _, ns := range names {
+				out = append(out, EncodeCmd(append([]string{verb}, ns...)...)...)
+				wantNames = append(wantNames, ns...)
+			}
+			_, _ = sc.conn.Write(out)
+			s.Settle()
+			frames, tail, ferr := ParseAll(sc.conn.Take())
+			var gotNames []string
+			for _, f := range frames {
+				if len(f.Elems) == 3 && strings.EqualFold(f.Elems[0].Text(), verb) {
+					gotNames = append(gotNames, f.Elems[1].Text())
+				}
+			}
+			if ferr != nil || len(tail) > 0 || !equalStrings(gotNames, wantNames) {
+				fail("subscribe-confirmations/"+strings.ToLower(verb), fmt.Sprintf("%s %v in one write: confirmations for %v, expected one per channel named, in order: %v", verb, names, gotNames, wantNames))
+			}
 		}
 		o.Stats = s.Stats
 	})
